@@ -130,8 +130,9 @@ class Circuit(tk.Circuit):
                 counts[i] = post_selected
         if scale:
             for i, circuit in enumerate((self, ) + others):
-                for bitstring in counts[i]:
-                    counts[i][bitstring] *= circuit.scalar
+                counts[i] = {
+                    bitstring: count * circuit.scalar
+                    for bitstring, count in counts[i].items()}
         return counts
 
 
